@@ -11,7 +11,8 @@
 EXTENDS Symop, TLC, Json, IOUtils
 
 CONSTANT NBlocks
-Traces == JsonDeserialize(IOEnv.TRACE_FILE).traces
+ASSUME TLCSet(1, JsonDeserialize(IOEnv.TRACE_FILE).traces)     \* parsed once, not once per worker
+Traces == TLCGet(1)
 VARIABLES blk, tid
 
 Mat9(r) == <<r[1][1], r[1][2], r[1][3], r[2][1], r[2][2], r[2][3], r[3][1], r[3][2], r[3][3]>>
